@@ -1014,3 +1014,157 @@ Qed.
 Example join2_not_assoc :   (* a = "a", b = "/", c = ".." : "." versus "a" *)
   join2 (join2 [97%N] s_slash) s_dotdot = s_dot /\ join2 [97%N] (join2 s_slash s_dotdot) = [97%N].
 Proof. vm_compute. auto. Qed.
+
+(** ** names that never step above their starting point *)
+
+(* the name resolved on its own, relative, without clamping *)
+Definition rel_segs (c : str) : list str := norm_aux false (split_slash c) [].
+Definition no_up (c : str) : Prop := ~ In s_dotdot (rel_segs c).
+
+Lemma dd_stays X : forall st2, In s_dotdot st2 -> In s_dotdot (norm_aux false X st2).
+Proof.
+  induction X as [|s X IH]; intros st2 Hin.
+  - cbn [norm_aux]. now apply in_rev in Hin.
+  - destruct (seg_cases s) as [Hskip|[->|[Hn [Hd Hdd]]]].
+    + rewrite norm_aux_skip by exact Hskip. now apply IH.
+    + destruct st2 as [|top st2]; [destruct Hin|].
+      destruct (is_dotdot top) eqn:Et.
+      * apply is_dotdot_true in Et. subst top. rewrite norm_aux_dd_dd. apply IH. now left.
+      * apply is_dotdot_false in Et. rewrite norm_aux_dd_pop by exact Et. apply IH.
+        destruct Hin as [E|Hin]; [now contradiction Et | exact Hin].
+    + rewrite norm_aux_push by assumption. apply IH. now right.
+Qed.
+
+Lemma norm_aux_no_up_gen r X : forall st2 st,
+  ~ In s_dotdot (norm_aux false X st2) ->
+  norm_aux r X (st2 ++ st) = rev st ++ norm_aux false X st2.
+Proof.
+  induction X as [|s X IH]; intros st2 st Hno.
+  - cbn [norm_aux]. apply rev_app_distr.
+  - destruct (seg_cases s) as [Hskip|[->|[Hn [Hd Hdd]]]].
+    + rewrite !norm_aux_skip by exact Hskip. rewrite norm_aux_skip in Hno by exact Hskip. now apply IH.
+    + destruct st2 as [|top st2].
+      * exfalso. apply Hno. rewrite norm_aux_dd_nil_unrooted. apply dd_stays. now left.
+      * destruct (is_dotdot top) eqn:Et.
+        -- exfalso. apply is_dotdot_true in Et. subst top. apply Hno. rewrite norm_aux_dd_dd.
+           apply dd_stays. now left.
+        -- apply is_dotdot_false in Et. cbn [app]. rewrite !norm_aux_dd_pop by exact Et.
+           rewrite norm_aux_dd_pop in Hno by exact Et. now apply IH.
+    + rewrite !norm_aux_push by assumption. rewrite norm_aux_push in Hno by assumption.
+      now apply (IH (s :: st2)).
+Qed.
+
+Lemma norm_aux_no_up r X st : ~ In s_dotdot (norm_aux false X []) ->
+  norm_aux r X st = rev st ++ norm_aux false X [].
+Proof. intros H. exact (norm_aux_no_up_gen r X [] st H). Qed.
+
+Lemma norm_aux_normal r L : forall st, Forall normal_seg L -> norm_aux r L st = rev st ++ L.
+Proof.
+  induction L as [|s L IH]; intros st HL.
+  - cbn [norm_aux]. now rewrite app_nil_r.
+  - inversion HL as [|? ? [H1 [H2 H3]] HL']; subst. rewrite norm_aux_push by assumption.
+    rewrite IH by exact HL'. cbn [rev]. now rewrite <- app_assoc.
+Qed.
+
+Lemma rel_segs_nf c : nf false (rel_segs c).
+Proof. apply norm_aux_nf; [apply split_slash_pieces | apply nf_nil]. Qed.
+
+Lemma rel_segs_normal c : no_up c -> Forall normal_seg (rel_segs c).
+Proof.
+  intros Hno. destruct (rel_segs_nf c) as [Hok _]. rewrite Forall_forall in *.
+  intros s Hin. destruct (Hok s Hin) as [H1 [H2 _]]. repeat split; try assumption.
+  intros ->. now apply Hno.
+Qed.
+
+Lemma nf_true_normal L : nf true L -> Forall normal_seg L.
+Proof.
+  intros [Hok Hdd]. cbn in Hdd. rewrite Forall_forall in *. intros s Hin.
+  destruct (Hok s Hin) as [H1 [H2 _]]. repeat split; try assumption. now apply Hdd.
+Qed.
+
+Lemma normal_nf r L : Forall normal_seg L -> Forall slash_free L -> nf r L.
+Proof.
+  intros HL Hsf. assert (Hdd : Forall not_dd L).
+  { eapply Forall_impl; [|exact HL]. intros s [_ [_ H]]. exact H. }
+  split; [|destruct r; [exact Hdd | now apply dd_pre_nodd]].
+  rewrite Forall_forall in *. intros s Hin. destruct (HL s Hin) as [H1 [H2 _]].
+  repeat split; try assumption. now apply Hsf.
+Qed.
+
+(* a name that never steps up is simply appended, whatever the base *)
+Theorem joined_segs_no_up base name : no_up name ->
+  joined_segs base name = clean_segs base ++ rel_segs name.
+Proof.
+  intros Hno. unfold joined_segs. rewrite norm_aux_no_up by exact Hno. now rewrite rev_involutive.
+Qed.
+
+Theorem real_path_no_up base name :
+  (is_rooted base = false -> clean_segs base <> []) -> no_up name ->
+  real_path base name = Some (render (is_rooted base) (clean_segs base ++ rel_segs name)).
+Proof.
+  intros Hside Hno. rewrite <- joined_segs_no_up by exact Hno. rewrite <- join2_render.
+  apply real_path_iff; [exact Hside|]. split; [reflexivity|].
+  unfold stays_inside. rewrite joined_segs_no_up by exact Hno. now exists (rel_segs name).
+Qed.
+
+Lemma clean_segs_no_up b : no_up b -> clean_segs b = rel_segs b.
+Proof. intros Hno. unfold clean_segs. now rewrite norm_aux_no_up by exact Hno. Qed.
+
+Lemma no_up_render rz L : nf rz L -> Forall normal_seg L ->
+  rel_segs (render rz L) = L /\ no_up (render rz L).
+Proof.
+  intros Hnf HL. assert (E : rel_segs (render rz L) = L).
+  { unfold rel_segs. rewrite norm_split_render by exact Hnf. now rewrite norm_aux_normal. }
+  split; [exact E|]. unfold no_up. rewrite E. intros Hin. rewrite Forall_forall in HL.
+  destruct (HL _ Hin) as [_ [_ H]]. now apply H.
+Qed.
+
+(* a cleaned rooted path never steps up *)
+Lemma no_up_clean_rooted b : is_rooted b = true -> no_up (clean b).
+Proof.
+  intros Hr. pose proof (clean_segs_nf b) as Hnf. rewrite Hr in Hnf.
+  unfold clean. rewrite Hr. now apply no_up_render; [|apply nf_true_normal].
+Qed.
+
+(* D2': associativity also holds for a rooted middle element when neither it nor the last
+   element steps above its starting point *)
+Theorem join2_assoc_no_up a b c : a <> [] -> b <> [] -> c <> [] -> no_up b -> no_up c ->
+  join2 (join2 a b) c = join2 a (join2 b c).
+Proof.
+  intros Ha Hb Hc Hnb Hnc.
+  pose proof (join2_nonnil_l a b Ha) as Hab. pose proof (join2_nonnil_l b c Hb) as Hbc.
+  rewrite (join2_both (join2 a b) c) by assumption.
+  rewrite (join2_both a (join2 b c)) by assumption. cbn [s_slash app].
+  apply clean_eq_iff. split.
+  - rewrite !is_rooted_app by assumption. now apply is_rooted_join2_both.
+  - rewrite !clean_segs_cat by assumption. rewrite is_rooted_join2_both by exact Ha.
+    rewrite (norm_aux_app _ (split_slash (join2 a b))).
+    rewrite (join2_both a b) by assumption. cbn [s_slash app].
+    rewrite norm_split_clean. rewrite clean_segs_cat by exact Ha.
+    pose proof (clean_segs_self (a ++ SLASH :: b)) as Hself.
+    rewrite clean_segs_cat in Hself by exact Ha. rewrite is_rooted_app in Hself by exact Ha.
+    rewrite Hself. rewrite <- norm_aux_app.
+    rewrite (norm_aux_app _ (split_slash a) (split_slash (join2 b c))).
+    rewrite (join2_both b c) by assumption. cbn [s_slash app].
+    rewrite norm_split_clean. rewrite clean_segs_cat by exact Hb.
+    rewrite (norm_aux_app _ (split_slash b) (split_slash c)).
+    rewrite (norm_aux_no_up _ (split_slash b)) by exact Hnb. cbn [rev app].
+    rewrite (norm_aux_no_up _ (split_slash c)) by exact Hnc. rewrite rev_involutive.
+    fold (rel_segs b). fold (rel_segs c).
+    rewrite (norm_aux_normal _ (rel_segs b ++ rel_segs c))
+      by (apply Forall_app; split; now apply rel_segs_normal).
+    rewrite <- app_assoc.
+    rewrite (norm_aux_app _ (split_slash a) (split_slash b ++ split_slash c)).
+    rewrite (norm_aux_app _ (split_slash b) (split_slash c)).
+    rewrite (norm_aux_no_up _ (split_slash b)) by exact Hnb.
+    rewrite (norm_aux_no_up _ (split_slash c)) by exact Hnc.
+    fold (rel_segs b). fold (rel_segs c).
+    now rewrite !rev_app_distr, !rev_involutive, <- !app_assoc.
+Qed.
+
+Theorem join2_assoc a b c : a <> [] -> b <> [] -> c <> [] ->
+  is_rooted b = false \/ (no_up b /\ no_up c) ->
+  join2 (join2 a b) c = join2 a (join2 b c).
+Proof.
+  intros Ha Hb Hc [H|[H1 H2]]; [now apply join2_assoc_unrooted | now apply join2_assoc_no_up].
+Qed.
